@@ -30,6 +30,10 @@ Clauses
               Stream shared through thub(stream, copies); the coefficient Streams are read a few samples
               at a time in any order: index i of every coefficient of a design is the constant design
               for that design's i-th parameter sample (the control's value when index i was first pulled)
+  longstreams Stream-valued parameters of 300..1500 samples (thorough: to 4000) over a pool of 257..700 (1500)
+              distinct values that come again after more than 256 other values (periodic Stream(*values), cycle,
+              held steps, triangle sweeps, irregular revisits), every stream-capable family: each sample of each
+              coefficient equals the constant design of that sample's parameter (coefficients only)
 
 Entry points: every family is called through attribute, item, the dictionary itself (default strategy)
 and with the documented parameter names as keywords (gammatone.sampled also with phase / eta by
@@ -40,7 +44,7 @@ import itertools
 from fractions import Fraction
 
 from hypothesis import strategies as st
-from vlib.core import Clause, Enumerated, Violation
+from vlib.core import Clause, Enumerated, Violation, Reject
 from vlib.q import Q
 
 from audiolazy import (lowpass, highpass, resonator, comb, gammatone, Stream,
@@ -1132,6 +1136,167 @@ def run_controls(case):
   return {"nontrivial": later or changed or (vals is not None and len(set(vals)) > 1), "labels": labels}
 
 
+# ---------------------------------------------------------------- long Stream-valued parameters that revisit values
+#
+# A cut-off moved by an LFO or a step sequencer, a slow sweep that comes back: the parameter Stream has hundreds of
+# samples taken from a pool of hundreds of distinct values, and values seen long ago come again (periodic
+# Stream(*values), triangle sweeps, irregular revisits).  Every sample of every coefficient is still the constant
+# design of that sample's parameter.  Cases stay small: pool and order are built in run_case from a few numbers.
+
+LS_DOMAIN = {"angle": (LO, HI), "bw": (1e-3, 1.), "alpha": (-1., 1.), "tau": (.5, 400.)}
+LS_ORDERS = ["periodic", "periodic", "periodic", "cycle", "hold", "triangle", "irregular", "irregular"]
+
+
+@st.composite
+def strat_longstreams_(draw, tier):
+  fam = draw(st.sampled_from(["lowhigh"] * 5 + ["resonator"] * 3 + ["comb"] * 2 + ["klapuri"]))
+  case = {"fam": fam}
+  if fam == "lowhigh":
+    case.update(band=draw(st.sampled_from(["low", "high"])), strat=draw(st.sampled_from(STRATS)), group="angle")
+  elif fam == "resonator":
+    case.update(strat=draw(st.sampled_from(RES)), group=draw(st.sampled_from(["angle", "angle", "bw", "both"])))
+  elif fam == "klapuri":
+    case.update(group=draw(st.sampled_from(["angle", "bw", "both"])))
+  else:
+    kind = draw(st.sampled_from(["fb", "ff", "tau", "tau"]))
+    case.update(kind=kind, name=draw(st.sampled_from(COMB[kind])), group="tau" if kind == "tau" else "alpha",
+                delay=draw(st.one_of(st.integers(1, 12), st.integers(13, 3000))))
+  if case["group"] in ("angle", "both"):
+    case["other"] = draw(_bw)
+  elif case["group"] == "bw":
+    case["other"] = draw(_freq)
+  pmax = 700 if tier == "quick" else 1500
+  P = draw(st.one_of(st.integers(260, pmax), st.sampled_from([257, 258, 260, 300, 512, 513, 600])))
+  a = draw(st.floats(0, 1))
+  b = draw(st.floats(0, 1).filter(lambda v: abs(v - a) >= .05))
+  order = draw(st.sampled_from(LS_ORDERS))
+  extra = draw(st.integers(20, 2 * P))      # samples after every pool value has been seen once
+  cap = 1500 if tier == "quick" else 4000
+  case.update(pool=P, a=a, b=b, stride=draw(st.sampled_from([1, 1, 7, 37, 101, 211])), order=order,
+              n=min((2 * P if order == "hold" else P) + extra, max(cap, (2 * P if order == "hold" else P) + 60)),
+              seed=draw(st.integers(0, 2 ** 16)), src=draw(st.sampled_from(["list_stream", "iter_stream", "generator_stream"])))
+  return case
+
+
+def strat_longstreams(tier):
+  return strat_longstreams_(tier)
+
+
+def ls_pool(group, P, a, b, stride):
+  lo, hi = LS_DOMAIN[group]
+  x0, x1 = lo + a * (hi - lo), lo + b * (hi - lo)
+  while math.gcd(stride, P) != 1:
+    stride += 1
+  vals = [min(hi, max(lo, x0 + (x1 - x0) * ((k * stride) % P) / (P - 1))) for k in range(P)]
+  return vals
+
+
+def ls_indices(order, P, n, seed):
+  if order in ("periodic", "cycle"):
+    return [k % P for k in range(n)]
+  if order == "hold":               # step sequencer: every value held for two samples
+    return [(k // 2) % P for k in range(n)]
+  if order == "triangle":           # up and down again and again
+    per = 2 * P - 2
+    return [k % per if k % per < P else per - k % per for k in range(n)]
+  idx = list(range(P))              # irregular: once through the pool, then wherever a small LCG goes
+  s = seed
+  while len(idx) < n:
+    s = (s * 1103515245 + 12345) % (2 ** 31)
+    idx.append((s >> 8) % P)
+  return idx[:n]
+
+
+def run_longstreams(case):
+  fam, group, P, order, n = case["fam"], case["group"], case["pool"], case["order"], case["n"]
+  idx = ls_indices(order, P, n, case["seed"])
+  pools = {}
+  if group == "both":
+    pools["angle"] = ls_pool("angle", P, case["a"], case["b"], case["stride"])
+    pools["bw"] = ls_pool("bw", P, case["b"], case["a"], case["stride"] + 2)
+  else:
+    pools[group] = ls_pool(group, P, case["a"], case["b"], case["stride"])
+  for g, pool in pools.items():
+    if len(set(pool)) != P:
+      raise Reject("pool values not distinct")
+
+  def source(pool):
+    if order == "periodic":         # Stream(*values): endless, periodic
+      return Stream(*pool)
+    if order == "cycle":
+      return Stream(itertools.cycle(list(pool)))
+    return as_stream(case["src"], [pool[i] for i in idx])
+
+  def design(x, y=None):
+    """x: the group's parameter (both: x angle, y bandwidth)."""
+    if fam == "lowhigh":
+      return [(lowpass if case["band"] == "low" else highpass)[case["strat"]](x)]
+    if fam == "comb":
+      return [(comb if case["name"] == "default" else comb[case["name"]])(case["delay"], x)]
+    fn = resonator[case["strat"]] if fam == "resonator" else gammatone.klapuri
+    res = fn(x, case["other"]) if group == "angle" else fn(case["other"], x) if group == "bw" else fn(x, y)
+    return [res] if fam == "resonator" else list(res)
+
+  if fam == "lowhigh":
+    name = "%spass.%s" % (case["band"], case["strat"])
+  elif fam == "comb":
+    name = "comb.%s(%d, .)" % (case["name"], case["delay"])
+  else:
+    name = ("resonator." + case["strat"]) if fam == "resonator" else "gammatone.klapuri"
+  what = "%s with a %s Stream parameter (%s) of %d samples over a pool of %d distinct values (%s order)" % (
+    name, "Stream(*values)" if order == "periodic" else "cyclic" if order == "cycle" else "finite", group, n, P, order)
+  if group == "both":
+    tab = section_tables(design(source(pools["angle"]), source(pools["bw"])))
+  else:
+    tab = section_tables(design(source(pools[group])))
+  endless = order in ("periodic", "cycle")
+  consts = {}
+  nstreams = 0
+  for key in sorted(tab):
+    v = tab[key]
+    if not isinstance(v, Stream):
+      continue
+    nstreams += 1
+    got = list(itertools.islice(v, n if endless else n + 1))
+    if len(got) != n:
+      raise Violation("%s: coefficient %s[%d] (section %d) has %d samples" % (what, key[1], key[2], key[0], len(got)))
+    for k, g in enumerate(got):
+      i = idx[k]
+      if i not in consts:
+        consts[i] = section_tables(design(pools["angle"][i], pools["bw"][i]) if group == "both"
+                                   else design(pools[group][i]))
+      want = consts[i].get(key, 0)
+      if isinstance(g, bool) or not isinstance(g, (int, float)) or not abs(g - want) <= 1e-12:
+        par = (pools["angle"][i], pools["bw"][i]) if group == "both" else pools[group][i]
+        seen = [j for j in range(k) if idx[j] == i]
+        raise Violation("%s: sample %d of coefficient %s[%d] (section %d) is %r; the parameter there is %r (pool "
+                        "value %d, %s), for which the constant design has %r"
+                        % (what, k, key[1], key[2], key[0], g, par, i,
+                           "last seen at sample %d" % seen[-1] if seen else "first time", want))
+  if nstreams == 0:
+    raise Violation("%s: no coefficient is a Stream" % what)
+  # constant coefficients
+  c0 = consts[idx[0]]
+  for key in sorted(set(tab) | set(c0)):
+    v = tab.get(key, 0)
+    if not isinstance(v, Stream) and not abs(v - c0.get(key, 0)) <= 1e-12:
+      raise Violation("%s: coefficient %s[%d] (section %d) is %r, constant design has %r"
+                      % (what, key[1], key[2], key[0], v, c0.get(key, 0)))
+  gap = 0       # > 256 once a value comes again after more than 256 other distinct values
+  last = {}
+  for k, i in enumerate(idx):
+    if gap <= 256 and i in last and k - last[i] > 256:
+      gap = max(gap, len(set(idx[last[i] + 1:k])))
+    last[i] = k
+  labels = ["family:" + fam, "group:" + group, "order:" + order, name if fam != "comb" else "comb." + case["kind"],
+            "pool<=300" if P <= 300 else "pool 301..700" if P <= 700 else "pool>700"]
+  if gap > 256:
+    labels.append("value revisited after more than 256 other distinct values")
+  if n >= 2 * len(set(idx)):
+    labels.append("two full passes or more")
+  return {"nontrivial": gap > 256, "labels": labels}
+
+
 CLAUSES = [
   Clause("lowhigh", strat_lowhigh, run_lowhigh, quick=2400, thorough=30000,
          floors=dict([("%spass.%s" % (b, s), .03) for b in ("low", "high") for s in STRATS] +
@@ -1167,6 +1332,13 @@ CLAUSES = [
   Clause("streams", strat_streams, run_streams, quick=1400, thorough=14000,
          floors={"family:lowhigh": .1, "family:resonator": .1, "family:comb": .05, "family:klapuri": .05},
          doc="Stream-valued parameters: coefficient Streams equal the constant designs sample by sample"),
+  Clause("longstreams", strat_longstreams, run_longstreams, quick=288, thorough=2400,
+         floors={"family:lowhigh": .12, "family:resonator": .08, "family:comb": .05, "family:klapuri": .02,
+                 "value revisited after more than 256 other distinct values": .3, "order:periodic": .1,
+                 "order:irregular": .08, "two full passes or more": .12},
+         doc="Stream-valued parameters of 300..1500 samples (thorough: to 4000) over a pool of 257..700 (1500) distinct "
+             "values that come again (periodic Stream(*values), cycle, held steps, triangle sweeps, irregular revisits), "
+             "every stream-capable family: each coefficient sample equals the constant design of that sample's parameter"),
   Clause("controls", strat_controls, run_controls, quick=800, thorough=10000,
          floors={"src:control": .2, "src:hub": .08, "src:repeat": .02, "value changed": .15,
                  "group:angle": .12, "group:bw": .04, "group:alpha": .04, "group:tau": .08,
